@@ -1,2 +1,10 @@
 #!/bin/bash
-exit 0
+# Builds both harness binaries (plain and -race) from files on disk, offline.
+set -e
+cd "$(dirname "$0")"
+export GOFLAGS=-mod=mod GOPROXY=off GOSUMDB=off GOTOOLCHAIN=local
+mkdir -p .build evidence/replays
+cp /repo/go.sum harness/go.sum
+( cd harness && go build -tags verif -o ../.build/harness . )
+( cd harness && go build -tags verif -race -o ../.build/harness-race . )
+echo "setup ok"
